@@ -103,3 +103,41 @@ claim("C07",
       "floats are mathematical reals except for the explicit power-range obligation; random.uniform(a,b) in [a,b] and "
       "determinism of Random(seed) are assumed library contracts; the | & + dunder methods and __init__ conversions "
       "are not separately under contract.")
+
+claim("C11",
+      "rebuild_state_from_ticks and replay_ticks_stream are proved, for every well-formed initial state and every tick "
+      "list, to start exactly like the live runner (the same rewind_in_progress: with an empty log nothing is left "
+      "queued while a slot is free), to thread the state through the same _reduce_tick under the reducer's inductive "
+      "invariant (shape of the workflow kept, worker ids legal and distinct), to raise only the documented ValueError "
+      "and to leave the caller's state and tick list untouched (no aliasing with the live state); replay_ticks_stream "
+      "reports only an exit command the reducer really emitted.",
+      "Not a full functional-equality proof: that the loop feeds EVERY tick exactly once and in order is checked by the "
+      "loop contract's structure (for-over-list cut at the invariant) but 'result == fold(reduce, ticks)' is not stated "
+      "as a ghost fold yet; that the live loop records every tick it reduces (runner main loop / adapter on_tick) is "
+      "trusted; timestamps are set aside as in the statement.",
+      category="other")
+
+claim("C20",
+      "Lock-discipline contract guarded_by(_lock) on both state-store classes, decided on the AST of the real classes "
+      "for every method and every syntactic path: each write of the shared state (self._state / _save_state) is lexically "
+      "inside `async with self._lock`, and edit_state holds the lock across its yield. With one asyncio lock per store "
+      "this makes every operation atomic w.r.t. the others at every await point, i.e. serializable. A failed obligation "
+      "is replayed by a native two-task scenario (scenarios/store_scenarios.py) on the real classes. Since fix e334c81 "
+      "all obligations hold.",
+      "Decided syntactically, not by SMT: the obligation is 'write dominated by lock acquisition' on the method's AST; "
+      "asyncio.Lock's mutual exclusion and SQLite's statement atomicity are assumed; cross-store-instance sharing of one "
+      "run_id row (two SqliteStateStore objects for the same run) is outside the lock's reach and not covered.",
+      category="other",
+      technique="contract-based: guarded_by(lock) ownership contract on the real classes, obligations decided on the "
+                "Python AST (lexical lock scope on every path), failing obligations replayed natively")
+
+claim("C21",
+      "Ownership contract close_requires_ownership on SqliteStateStore / SqliteWorkflowStore: a connection obtained "
+      "from _connect() may be closed only under the `owns connection` guard; decided on the AST for every method of the "
+      "real classes (all syntactic paths), with the native scenario `single_connection` replaying any failed obligation "
+      "against real sqlite. Since fix 19adfa4 all obligations hold.",
+      "Equivalence of results between the two connection modes beyond 'the shared connection stays open' (transaction "
+      "visibility, commit points) relies on SQLite semantics and is not covered.",
+      category="other",
+      technique="contract-based: ownership (close only what you opened) contract on the real classes, obligations "
+                "decided on the Python AST, failing obligations replayed natively against sqlite")
